@@ -895,6 +895,31 @@ Qed.
 Lemma unwinding_okw {A} (m : M world A) cleanup w a w' : m w = Ok a w' -> unwinding m cleanup w = Ok a w'.
 Proof. intros E. unfold unwinding, on_unwind. rewrite E. reflexivity. Qed.
 
+Lemma cur_next_nat i j :
+  cur_next {| ci := N.of_nat i; ce := N.of_nat j |}
+  = if (i =? j)%nat then (None, {| ci := N.of_nat i; ce := N.of_nat j |})
+    else (Some (N.of_nat i), {| ci := N.of_nat (S i); ce := N.of_nat j |}).
+Proof.
+  unfold cur_next. cbn [ci ce].
+  destruct (Nat.eqb_spec i j) as [->|Hne].
+  - rewrite N.eqb_refl. reflexivity.
+  - destruct (N.eqb_spec (N.of_nat i) (N.of_nat j)) as [E|_]; [apply Nat2N.inj in E; contradiction|].
+    rewrite Nat2N.inj_succ, N.add_1_r. reflexivity.
+Qed.
+Lemma cur_next_back_nat i j :
+  cur_next_back {| ci := N.of_nat i; ce := N.of_nat j |}
+  = if (i =? j)%nat then (None, {| ci := N.of_nat i; ce := N.of_nat j |})
+    else (Some (N.of_nat (j - 1)), {| ci := N.of_nat i; ce := N.of_nat (j - 1) |}).
+Proof.
+  unfold cur_next_back. cbn [ci ce].
+  destruct (Nat.eqb_spec i j) as [->|Hne].
+  - rewrite N.eqb_refl. reflexivity.
+  - destruct (N.eqb_spec (N.of_nat j) (N.of_nat i)) as [E|_]; [apply Nat2N.inj in E; congruence|].
+    assert (E : N.of_nat j - 1 = N.of_nat (j - 1)) by lia. rewrite E. reflexivity.
+Qed.
+Lemma cur_len_nat i j : cur_len {| ci := N.of_nat i; ce := N.of_nat j |} = N.of_nat (j - i).
+Proof. unfold cur_len. cbn [ci ce]. lia. Qed.
+
 Section Draining.
 Variables (c : cfg) (w : world) (st : astate) (vid : nat) (av : avec) (vv : vec) (s e : nat) (a : api).
 Hypothesis HW : WRep c w st.
@@ -1013,31 +1038,6 @@ Proof.
       * destruct (c_dg c); cbn [emit ufuse]; exact Hf.
       * apply Hevs. unfold drop_ev. destruct (c_dg c); [apply uevents_emit_user; reflexivity|reflexivity].
 Qed.
-
-Lemma cur_next_nat i j :
-  cur_next {| ci := N.of_nat i; ce := N.of_nat j |}
-  = if (i =? j)%nat then (None, {| ci := N.of_nat i; ce := N.of_nat j |})
-    else (Some (N.of_nat i), {| ci := N.of_nat (S i); ce := N.of_nat j |}).
-Proof.
-  unfold cur_next. cbn [ci ce].
-  destruct (Nat.eqb_spec i j) as [->|Hne].
-  - rewrite N.eqb_refl. reflexivity.
-  - destruct (N.eqb_spec (N.of_nat i) (N.of_nat j)) as [E|_]; [apply Nat2N.inj in E; contradiction|].
-    rewrite Nat2N.inj_succ, N.add_1_r. reflexivity.
-Qed.
-Lemma cur_next_back_nat i j :
-  cur_next_back {| ci := N.of_nat i; ce := N.of_nat j |}
-  = if (i =? j)%nat then (None, {| ci := N.of_nat i; ce := N.of_nat j |})
-    else (Some (N.of_nat (j - 1)), {| ci := N.of_nat i; ce := N.of_nat (j - 1) |}).
-Proof.
-  unfold cur_next_back. cbn [ci ce].
-  destruct (Nat.eqb_spec i j) as [->|Hne].
-  - rewrite N.eqb_refl. reflexivity.
-  - destruct (N.eqb_spec (N.of_nat j) (N.of_nat i)) as [E|_]; [apply Nat2N.inj in E; congruence|].
-    assert (E : N.of_nat j - 1 = N.of_nat (j - 1)) by lia. rewrite E. reflexivity.
-Qed.
-Lemma cur_len_nat i j : cur_len {| ci := N.of_nat i; ce := N.of_nat j |} = N.of_nat (j - i).
-Proof. unfold cur_len. cbn [ci ce]. lia. Qed.
 
 Lemma walk_spec cleanup : forall pat i j ww evs rets ds i' j',
   Walking ww evs -> (s <= i)%nat -> (i <= j)%nat -> (j <= e)%nat ->
